@@ -3,5 +3,4 @@ INVARIANT DeliverOnlyWhenDone
 INVARIANT EncodeGate
 INVARIANT LegalCompletion
 PROPERTY DeadIsAbsorbing
-POSTCONDITION TraceAccepted
 CHECK_DEADLOCK FALSE
